@@ -58,6 +58,7 @@ func Main(prop string) {
 		case !locate:
 			plan.OPASample, plan.GenN, plan.MutN, plan.SingleFile, plan.Stress = 0, 4000, 4000, 200, 4
 			plan.Deep = true
+			plan.QuotedSample = 8000 // of the 19 840 modules of the full cross product (every container x flavour x snippet x mode)
 		default:
 			plan.OPASample, plan.GenN, plan.MutN, plan.SingleFile, plan.Stress = 0, 2500, 2500, 100, 3
 			plan.Deep = true
